@@ -6,10 +6,19 @@
 // the object pointer tells instances apart.
 
 #ifdef EPHEMERALNET_VERIF
+namespace ephemeralnet {
+class Node;
+}
 namespace ephemeralnet::verif {
+// EPH_VERIF_EVENT marks a linearization point of the TTL life-cycle (store, manifest arrival, replica,
+// cleanup); a tracing harness supplies event() and logs the node's projected state.
+void event(const char* what, const Node& node, const unsigned char* chunk_id32, long long manifest_expiry_unix_ms, bool accepted);
 void access(const char* group, const char* site, bool write, const void* object);
 }
 #define EPH_VERIF_ACCESS(group, site, write) ::ephemeralnet::verif::access((group), (site), (write), static_cast<const void*>(this))
+#define EPH_VERIF_EVENT(what, chunk_id32, expiry_unix_ms, accepted) \
+    ::ephemeralnet::verif::event((what), *this, (chunk_id32), (expiry_unix_ms), (accepted))
 #else
+#define EPH_VERIF_EVENT(what, chunk_id32, expiry_unix_ms, accepted) ((void)0)
 #define EPH_VERIF_ACCESS(group, site, write) ((void)0)
 #endif
